@@ -132,10 +132,14 @@ func discharge(obs []*Obligation, timeoutS int, all bool) []ObResult {
 			defer func() { <-sem }()
 			var r SolveResult
 			if ob.Concrete != nil {
+				by := "exhaustive-fp"
+				if ob.Kind == "no-shared-state" {
+					by = "syntactic-callgraph"
+				}
 				if *ob.Concrete == "" {
-					r = SolveResult{Status: "unsat", Solver: "exhaustive-fp"}
+					r = SolveResult{Status: "unsat", Solver: by}
 				} else {
-					r = SolveResult{Status: "sat", Solver: "exhaustive-fp", Raw: *ob.Concrete}
+					r = SolveResult{Status: "sat", Solver: by, Raw: *ob.Concrete}
 				}
 			} else if ob.Goal.IsTrue() && ob.Expect != "sat" {
 				r = SolveResult{Status: "unsat", Solver: "trivial"}
